@@ -168,6 +168,12 @@ def compactDyn (cfg : Config) (d : Dyn) : Dyn :=
   { loaded := fun i => ld.contains i, on := fun i e => on.contains (i, e),
     tgts := fun i e => ((tg.find? (·.1 == (i, e))).map (·.2)).getD [] }
 
+/-- One message as the driver processes it: the table twin of the step, then the re-packing of the
+registers (this very definition is what `Driver/Micro.lean` calls). -/
+def mdoT (s : TState) (st : MStep) : TState :=
+  let s' := mstepT u s st
+  { s' with dyn := compactDyn u s'.cfg s'.dyn }
+
 /-- A public read on the table representation. -/
 def readStepT (s : TState) (i : Nat) (a : Int) : TState × Val :=
   match item? s.cfg i with
